@@ -155,11 +155,13 @@ def _cds_case(repo, it, S, spec):
 
 
 def _tx_case(repo, it, S, spec):
-    kind, exons, sn, cs, ce = spec
+    kind, exons, sn, cs, ce = spec[:5]
+    cstrand = spec[5] if len(spec) > 5 else "PLUS"
     out = []
     n = 0
     pc = chrom_parent(it, GENOME, alphabet="NT_EXTENDED")
-    pk = chunk_parent(it, GENOME, cs, ce, alphabet="NT_EXTENDED")
+    pk = chunk_parent(it, GENOME, cs, ce, alphabet="NT_EXTENDED", strand=cstrand)
+    to_chrom = (lambda p: p + cs) if cstrand == "PLUS" else (lambda p: ce - 1 - p)
     cls = "gene.transcript:TranscriptInterval" if kind.startswith(("tx", "ctx")) else "gene.feature:FeatureInterval"
     if kind.startswith("ctx"):
         # coding transcript: the CDS is the exon structure without the first and last base of the span
@@ -173,7 +175,7 @@ def _tx_case(repo, it, S, spec):
     else:
         mk = lambda p: mk_feature(it, exons, S[sn], parent_or_seq_chunk_parent=p)  # noqa: E731
     desc = (f"{'transcript' if kind == 'tx' else 'feature' if kind == 'feat' else f'coding transcript (CDS {cds}, start frame {kind[3:]})'} "
-            f"{list(exons)} {sn} chunk=[{cs},{ce})")
+            f"{list(exons)} {sn} chunk=[{cs},{ce})" + ("" if cstrand == "PLUS" else " (minus-strand chunk)"))
     try:
         whole = mk(pc)
     except Raised as ex:
@@ -204,8 +206,11 @@ def _tx_case(repo, it, S, spec):
     if is_empty_obj(loc):
         out.append(("chunk location", f"{desc}: chunk_relative_location is empty although bases {inside} are inside the chunk", f"{cls}.__init__"))
         return n, out
-    rel = [p + cs for p in enum_positions(blocks_of(loc), strand_of(loc).name)]
-    wantb = sorted((max(s, cs) - cs, min(e, ce) - cs) for s, e in exons if max(s, cs) < min(e, ce))
+    rel = [to_chrom(p) for p in enum_positions(blocks_of(loc), strand_of(loc).name)]
+    if cstrand == "PLUS":
+        wantb = sorted((max(s, cs) - cs, min(e, ce) - cs) for s, e in exons if max(s, cs) < min(e, ce))
+    else:
+        wantb = sorted((ce - min(e, ce), ce - max(s, cs)) for s, e in exons if max(s, cs) < min(e, ce))
     if rel != inside or sorted(blocks_of(loc)) != wantb:
         out.append(("chunk location", f"{desc}: chunk_relative_location {blocks_of(loc)} = chromosome bases {rel}; the part inside the chunk is {inside} (blocks {wantb})", f"{cls}.__init__"))
     n += 1
@@ -262,6 +267,8 @@ def rk_intervals(ctx):
                     if kind.startswith("ctx") and not ctx.thorough and (j + int(kind[3:])) % 2:
                         continue
                     specs.append((kind, lay, sn, cs, ce))
+                    if ctx.thorough or j % 4 == 1:
+                        specs.append((kind, lay, sn, cs, ce, "MINUS"))
     ctx.r.floor("C07.RT", "transcript / feature twin cases", len(specs), 300)
     results = pmap(_runner(ctx.repo, _tx_case), specs)
     _report(ctx, "C07.RT", results, [
